@@ -79,6 +79,50 @@ def judge_case(prog, ctx, detail, mode, scratch) -> Tuple[Optional[Tuple[str, st
     return None, info
 
 
+HISTORY_PROGS = [("src", "mul", "sink"), ("src", "two", "probe_r"), ("src_ctx", "failif", "sink"), ("src", "mul", "failif", "tmpl_a"),
+                 ("src", "probe_r", "ren_r_factor", "mul", "del_a"), ("sweep_src", "slice_mul", "sum")]
+
+
+def judge_history(prog, ctxs, detail, mode, scratch) -> List[Tuple[str, str, dict]]:
+    """Several runs on ONE Pipeline object (as a run-space launch or a long-lived service does), each into its own trace:
+    every run's trace must be well-formed for THAT run's outcome, whatever happened in the runs before it."""
+    from semantiva.pipeline import Pipeline
+
+    out: List[Tuple[str, str, dict]] = []
+    cfg = harness.load_config(gen.yaml_config(prog))
+    pipe = Pipeline(cfg.nodes)
+    dkind = first_accepted_kind(prog)
+    for k, ctx in enumerate(ctxs):
+        ref = interp.run(prog, gen.ref_data(dkind), ctx)
+        records, files, real, _, driver = traces.traced_single(prog, dkind, ctx, detail=detail, mode=mode, scratch=scratch, pipeline=pipe)
+        returned = real.status == "ok"
+        case = {"prog": list(prog), "ctxs": ctxs, "detail": detail, "mode": mode, "kind": "history"}
+        if ref.status != real.status or ref.error != real.error:
+            out.append(("traced-run-outcome-differs-from-reference|history", f"run {k} of {list(prog)} with {ctx}: reference {ref.status} {ref.error}; run {real.status} {real.error}", case))
+            continue
+        started = len(prog) if returned else (0 if ref.status == "construct" else ref.index + 1)
+        bad = tracegrammar.check_single_run(records, returned=returned, nodes_started=started)
+        if bad:
+            prev = "after-failed-run" if k and any(interp.run(prog, gen.ref_data(dkind), c).status != "ok" for c in ctxs[:k]) else "after-ok-run" if k else "first-run"
+            out.append((f"{bad[0]}|history|{prev}", f"run {k} of {list(prog)} with {ctx} (same Pipeline object, previous contexts {ctxs[:k]}): {bad[1]}", case))
+        if open_fds_on(scratch):
+            out.append(("trace-file-left-open|history", f"run {k} of {list(prog)}", case))
+    return out
+
+
+def history_jobs(tier: str):
+    jobs = []
+    for prog in HISTORY_PROGS:
+        cs = gen.contexts_for(prog, max_keys=2, extra=False)
+        cs = [c for c in cs if all(v not in (0, 0.0, False) or isinstance(v, str) for v in c.values())][:4]
+        seqs = [[a, b] for a in cs for b in cs]
+        if tier == "thorough":
+            seqs += [[a, b, c] for a in cs for b in cs for c in cs]
+        for i, seq in enumerate(seqs):
+            jobs.append(("history", prog, seq, ["hash", "all"][i % 2], ["file", "dir"][(i // 2) % 2]))
+    return jobs
+
+
 def cases_for(prog) -> List[Dict[str, Any]]:
     ks = gen.read_keys(prog)
     full = {k: gen.KEY_VALUES.get(k, 0.0625) for k in ks if k not in ("b", "t_values")}
@@ -89,7 +133,15 @@ def _worker(chunk):
     harness.quiet()
     scratch = harness.enter_scratch()
     out = {"n": 0, "classes": {}, "viol": [], "nontrivial": set(), "sample": None}
-    for prog, detail, mode in chunk:
+    for item in chunk:
+        if item[0] == "history":
+            _, prog, seq, detail, mode = item
+            for sig, msg, case in judge_history(prog, seq, detail, mode, scratch):
+                out["viol"].append((sig, msg, case, "history"))
+            out["n"] += len(seq)
+            out["nontrivial"].add(core.sha([prog, seq]))
+            continue
+        prog, detail, mode = item
         for ctx in cases_for(prog):
             bad, info = judge_case(prog, ctx, detail, mode, scratch)
             out["n"] += 1
@@ -137,7 +189,7 @@ def failure_signature(sig: str, klass: str) -> str:
 
 
 def check(tier: str, seed: int) -> Result:
-    jobs = core.seeded_order(plan(tier), seed)
+    jobs = core.seeded_order(plan(tier) + history_jobs(tier), seed)
     tot = 0
     classes: Dict[str, int] = {}
     nontrivial = set()
@@ -149,7 +201,10 @@ def check(tier: str, seed: int) -> Result:
         for k, v in o["classes"].items():
             classes[k] = classes.get(k, 0) + v
         for sig, msg, case, klass in o["viol"]:
-            viols.append(Violation(failure_signature(sig, klass), f"{case['prog']} ctx={case['ctx']} detail={case['detail']} mode={case['mode']}: {msg}", case))
+            if klass == "history":
+                viols.append(Violation(sig, msg, case))
+            else:
+                viols.append(Violation(failure_signature(sig, klass), f"{case['prog']} ctx={case['ctx']} detail={case['detail']} mode={case['mode']}: {msg}", case))
         if o["sample"] and len(samples) < 4:
             samples.append(o["sample"])
     cov = {
@@ -167,5 +222,7 @@ def check(tier: str, seed: int) -> Result:
 def replay(case) -> List[Violation]:
     harness.quiet()
     scratch = harness.enter_scratch()
+    if case.get("kind") == "history":
+        return [Violation(s, m, c) for s, m, c in judge_history(tuple(case["prog"]), case["ctxs"], case["detail"], case["mode"], scratch)]
     bad, info = judge_case(tuple(case["prog"]), case["ctx"], case["detail"], case["mode"], scratch)
     return [Violation(failure_signature(bad[0], info["class"]), bad[1], case)] if bad else []
